@@ -70,6 +70,16 @@ func genCase(t *rapid.T) Case {
 		"pull-start", "pull-start", "pull-proceed", "pull-proceed", "pull-stop", "refused-sends", "refused-sends", "tick", "tick", "pub-rtp"}
 	for i := 0; i < n; i++ {
 		a := Action{Kind: rapid.SampledFrom(kinds).Draw(t, "kind"), Name: rapid.IntRange(0, c.Names-1).Draw(t, "name"), Sel: rapid.IntRange(0, 7).Draw(t, "sel")}
+		if i == 0 && rapid.IntRange(0, 3).Draw(t, "pullFirst") == 1 {
+			// most pulls are started on a stream that already has an input (and refused): start a share of the
+			// histories with one
+			a.Kind = "pull-start"
+		}
+		if i > 0 && c.Actions[i-1].Kind == "pull-start" && rapid.IntRange(0, 2).Draw(t, "pullAttaches") == 1 {
+			// a relay pull as the accepted input needs "origin answers play" before anything else takes the stream
+			// and before lal's pull timeout: too rare by chance
+			a = Action{Kind: "pull-proceed", Name: c.Actions[i-1].Name, Sel: 1}
+		}
 		switch a.Kind {
 		case "sub":
 			a.Sub = rapid.SampledFrom([]string{"rtmp", "flv", "ts", "rtsp"}).Draw(t, "subKind")
@@ -241,6 +251,7 @@ func waitUntil(d time.Duration, f func() bool) bool {
 func (w *world) accept(st *streamModel, in *input) {
 	st.in = in
 	st.accepted++
+	pbt.Count("accepted:"+in.kind, 1)
 }
 
 func (w *world) apply(ai int, a Action, st *streamModel) *pbt.Violation {
@@ -581,21 +592,35 @@ func (w *world) apply(ai int, a Action, st *streamModel) *pbt.Violation {
 		for _, in := range st.old {
 			w.sendBadOnOldHandle(in)
 		}
-		// forwarding is asynchronous (per-subscriber write queues) and a stream without input has nothing to
-		// synchronise on: give a wrongly forwarded message a moment to show up.  While the stream has an input, its
-		// next marker, queued behind, does that
-		if len(st.refused)+len(st.old) > 0 && len(st.subs) > 0 {
-			waitUntil(30*time.Millisecond, func() bool {
-				for _, sb := range st.subs {
-					if sb.k.has(badPattern, false) {
-						return true
-					}
-				}
-				return false
-			})
+		if len(st.refused)+len(st.old) > 0 {
+			w.graceForBad(st)
 		}
 	}
 	return nil
+}
+
+// graceForBad: forwarding is asynchronous (per-subscriber write queues) and a stream without input has nothing to
+// synchronise on: a wrongly forwarded message is given a moment to show up.  While the stream has an input, its
+// next marker, queued behind, does that.
+func (w *world) graceForBad(st *streamModel) {
+	if len(st.subs) == 0 {
+		return
+	}
+	waitUntil(30*time.Millisecond, func() bool {
+		for _, sb := range st.subs {
+			if sb.k.has(badPattern, false) {
+				return true
+			}
+		}
+		return false
+	})
+}
+
+// retire keeps the handle of an input that is no longer accepted but can still be written to, and uses it at once.
+func (w *world) retire(st *streamModel, in *input) {
+	st.old = append(st.old, in)
+	w.sendBadOnOldHandle(in)
+	w.graceForBad(st)
 }
 
 // sendBadRtmp sends the media of a party that is not (or no longer) the accepted input: the opaque audio message
@@ -650,7 +675,7 @@ func (w *world) inputLeaves(ai int, a Action, st *streamModel) *pbt.Violation {
 		in.rtsp.WaitPeerDone(lalclient.IdleTimeout)
 	case "customize":
 		w.s.Call("DelCustomizePubSession", func() { w.s.SM.DelCustomizePubSession(in.custom) })
-		st.old = append(st.old, in)
+		defer w.retire(st, in)
 	case "pull":
 		in.pullC.Close()
 		w.waitEvent("pull_stop", in.id, lalclient.DeliverTimeout)
@@ -665,7 +690,7 @@ func (w *world) inputLeaves(ai int, a Action, st *streamModel) *pbt.Violation {
 		if !w.pubGone(st, in.id) {
 			return pbt.V("kick/not-disconnected", "%s: the kicked GB28181 input %s is still the publisher of %s", w.who(ai, a), in.id, st.name)
 		}
-		st.old = append(st.old, in)
+		defer w.retire(st, in)
 	}
 	if in.id != "" {
 		st.staleIDs = append(st.staleIDs, in.id)
@@ -679,10 +704,10 @@ func (w *world) inputKicked(ai int, a Action, st *streamModel) *pbt.Violation {
 	switch in.kind {
 	case "rtmp":
 		in.pub.Conn.WaitPeerDone(lalclient.IdleTimeout)
-		st.old = append(st.old, in)
+		defer w.retire(st, in)
 	case "rtsp":
 		in.rtsp.WaitPeerDone(lalclient.IdleTimeout)
-		st.old = append(st.old, in)
+		defer w.retire(st, in)
 	case "pull":
 		w.waitEvent("pull_stop", in.id, lalclient.DeliverTimeout)
 		sendBadRtmp(in.pullC.SendMedia)
@@ -691,7 +716,7 @@ func (w *world) inputKicked(ai int, a Action, st *streamModel) *pbt.Violation {
 		if !w.pubGone(st, in.id) {
 			return pbt.V("kick/not-disconnected", "%s: the kicked GB28181 input %s is still the publisher of %s", w.who(ai, a), in.id, st.name)
 		}
-		st.old = append(st.old, in)
+		defer w.retire(st, in)
 	}
 	st.staleIDs = append(st.staleIDs, in.id)
 	w.left(st)
